@@ -159,7 +159,7 @@ def interesting_kills(events):
     return {i for i in out if 1 <= i <= len(events)}
 
 
-def crash_rounds(ctx, scenario, rng, case, every, on_kill=None, check_rerun=True, tag=""):
+def crash_rounds(ctx, scenario, rng, case, every, on_kill=None, check_rerun=True, tag="", stripe=None):
     """Enumerate kill points of one (scenario, generated master).  Kill points are striped over
     the shards (every shard rebuilds the same master from the same rng)."""
     res = ctx.res
@@ -189,7 +189,7 @@ def crash_rounds(ctx, scenario, rng, case, every, on_kill=None, check_rerun=True
     plan = [(n, partial) for n in sorted(kills) for partial in (False, True)]
     run_root = os.path.join(d, "run")
     for j, (n, partial) in enumerate(plan):
-        if j % ctx.nshards != ctx.shard:
+        if (j % ctx.nshards != ctx.shard) if stripe is None else (j % stripe[1] != stripe[0]):
             continue
         if ctx.out_of_time():
             res.count("stopped_by_time_budget")
